@@ -317,6 +317,15 @@ def run(ctx):
     rg = ctx.rule("R16-GENSIB", "the raw-AST and optimized-AST generators build getter forests identically for shared operators (R20-GENSIB instances)")
     gensib.run(rg, fs["pest_typed_generator"])
     rg.require(20, "arms")
+    # the same with the `grammar-extras` cargo feature on: node tags (`#tag = e`) are one more shared operator, and with
+    # emit_tagged_node_reference off a tag is transparent for rule getters in both generators (seed C16-6)
+    rgx = ctx.rule("R16-GENSIBX", "with the grammar-extras feature, the two generators build getter forests identically for shared operators, node "
+                                  "tags (NodeTag) included")
+    genx = facts.load("extras")["pest_typed_generator.extras"]
+    gensib.run(rgx, genx)
+    if not any("arm NodeTag" in smp.get("construct", "") for smp in rgx.samples) and "arm NodeTag" not in repr(sorted(rgx.distinct)):
+        rgx.violate("NodeTag", "no NodeTag arm was compared (anchor lost)")
+    rgx.require(22, "arms")
     # what the getters hand out is what the content stores: container nodes keep every child that matched
     from . import store
     rst = ctx.rule("R16-STORE", "runtime container nodes (Option, sequences, choices, Positive, Push, Box, rule structs with content) return, on every "
